@@ -17,6 +17,7 @@ int64 overflow in `parseDuration`) is cut by `Interval.String`. The `_exact` the
 the code does on EVERY input; the `_partial` theorems are the property under the explicit guards.
 -/
 import LinVerif.Lemmas.C17
+import LinVerif.Lemmas.C17Glue
 import LinVerif.Generated.C17
 
 namespace LinVerif.Props.C17
@@ -650,6 +651,473 @@ example : leafStatement (payloadOf { zeroQuery with groupBy := ["app", "host"] }
   have := congrArg Query.groupBy h
   simp [Query.wireImage] at this
 
+
+/-! # Round 8
+
+## Decode-side reuse: the decoded statement is a function of the payload alone
+
+`Query.UnmarshalJSON` decodes into a fresh `innerQuery{}` and the four processors decode into a
+fresh `stmt.Query{}` / `stmt.MetricMetadata{}` (`tie_decodeTargets`). The model below makes both
+explicit: `unmarshalQueryInto recv` is the code with an arbitrary receiver, `Worker.run pol` a
+request history on one worker with the scratch value obtained by policy `pol`. -/
+
+theorem tie_decodeTargets : Generated.C17.decodeTargets = decodeTargetTable := by decide
+
+/-- with a receiver whose `Condition`/`Having` are nil (in particular the zero value the processors
+use) `UnmarshalJSON` is the pure decode of the payload -/
+theorem decode_fresh_receiver (recv : Query) (hc : recv.condition = .nil) (hh : recv.having = .nil)
+    (j : Json) : unmarshalQueryInto recv j = unmarshalQuery j :=
+  unmarshalQueryInto_fresh recv hc hh j
+
+theorem decode_fresh_receiver_metadata (recv : Metadata) (hc : recv.condition = .nil) (j : Json) :
+    unmarshalMetadataInto recv j = unmarshalMetadata j :=
+  unmarshalMetadataInto_fresh recv hc j
+
+/-- what the code does with ANY receiver: the pure decode, except that an absent `condition` /
+`having` keeps the receiver's (the only two fields assigned under an `if`) -/
+theorem decode_into_receiver_exact (recv : Query) (kvs : Fields) (q : Query)
+    (h : unmarshalQuery (.obj kvs) = .ok q) :
+    unmarshalQueryInto recv (.obj kvs) = .ok { q with
+      condition := if getRaw kvs "condition" = none then recv.condition else q.condition,
+      having := if getRaw kvs "having" = none then recv.having else q.having } := by
+  simp only [unmarshalQuery, unmarshalQueryInto, structFields, bind, Except.bind, pure, Except.pure] at h ⊢
+  repeat' (split at h)
+  all_goals first | (cases h; done) | skip
+  cases h
+  rename_i hcond _ _ hhav _ _ _ _ _
+  simp only [*]
+  cases hc : getRaw kvs "condition" <;> cases hh : getRaw kvs "having" <;>
+    simp_all [unmarshalOpt, unmarshalOptInto]
+
+/-- every request on a worker that takes a fresh scratch value decodes to `unmarshalQuery payload`,
+whatever was decoded there before -/
+theorem worker_history_free (w : Worker) (history : List Json) :
+    Worker.run .fresh w history = history.map unmarshalQuery :=
+  worker_run_fresh w history
+
+/-- decode is a function of the payload alone: the same payload after two different histories on
+two different workers gives the same statement -/
+theorem decode_is_function_of_payload (w₁ w₂ : Worker) (h₁ h₂ : List Json) (p : Json) :
+    (Worker.run .fresh w₁ (h₁ ++ [p])).getLast? = (Worker.run .fresh w₂ (h₂ ++ [p])).getLast? ∧
+    (Worker.run .fresh w₁ (h₁ ++ [p])).getLast? = some (unmarshalQuery p) := by
+  simp [worker_run_fresh]
+
+/-- so the leaf executes the statement the root planned after ANY request history on that leaf -/
+theorem leaf_executes_planned_after_any_history (w : Worker) (history : List Json) (q : Query)
+    (hf : q.wellFormed = true) (hi : (1000 : Int) ∣ q.interval) (hs : (1000 : Int) ∣ q.storageInterval) :
+    (Worker.run .fresh w (history ++ [payloadOf q])).getLast? = some (.ok q) := by
+  rw [(decode_is_function_of_payload w w history history _).2]
+  exact congrArg some (leaf_executes_planned q hf hi hs)
+
+/-! ## The text layer: which numbers the model covers
+
+`NumberLiteral.Val` is an opaque IEEE-754 bit pattern in the model (`F64`); the encoder
+configuration (`encoding.JSONMarshal` = jsoniter `ConfigCompatibleWithStandardLibrary`, i.e.
+strconv's shortest text that parses back to the same float, `tie_marshalCodec`) is the `TextCodec`
+hypothesis `parse (encode j) = j` for every value whose floats are finite. A theorem over all finite
+float64 would need a verified `strconv.FormatFloat/ParseFloat` and is out of reach here. Concretely
+modelled and proved: whole numbers as decimal digit strings (`number_text_whole_numbers`, every
+`Int`). Everything else — fractional digits beyond 6 / beyond 17, exponents, -0, 1e21, 2^63±1,
+subnormals, the largest finite value — is covered by the harness's boundary literals (fixed case 8
+and the float pool), bit for bit. What CAN be said for any encoder: it must be injective on the
+values it may be handed, so an encoder that prints two different finite floats alike (6 fractional
+digits) has no decoder at all. -/
+
+theorem tie_marshalCodec : Generated.C17.marshalCodec = marshalCodecTable := by decide
+
+/-- the digit strings of whole numbers parse back exactly (every `Int`) -/
+theorem number_text_whole_numbers (v : Int) : parseInt (fmtInt v) = some v := parseInt_fmtInt v
+
+/-- any text layer that satisfies the contract is injective on printable values -/
+theorem textCodec_encode_injective (C : TextCodec) (j₁ j₂ : Json) (h₁ : j₁.wireOk = true)
+    (h₂ : j₂.wireOk = true) (h : C.encode j₁ = C.encode j₂) : j₁ = j₂ := by
+  have p₁ := C.parse_encode j₁ h₁
+  have p₂ := C.parse_encode j₂ h₂
+  rw [h, p₂] at p₁
+  injection p₁ with h'
+  exact h'.symm
+
+/-- an encoder that writes two different printable values with the same text (e.g. floats cut to
+6 fractional digits) cannot be completed to a text layer: no decoder satisfies the contract -/
+theorem lossy_encoder_has_no_decoder {T : Type} (encode : Json → T) (j₁ j₂ : Json)
+    (h₁ : j₁.wireOk = true) (h₂ : j₂.wireOk = true) (hne : j₁ ≠ j₂) (hc : encode j₁ = encode j₂) :
+    ¬ ∃ parse : T → Except Err Json, ∀ j : Json, j.wireOk = true → parse (encode j) = .ok j := by
+  rintro ⟨parse, hp⟩
+  exact hne (textCodec_encode_injective ⟨T, encode, parse, hp⟩ j₁ j₂ h₁ h₂ hc)
+
+/-- two literals that differ only from the 7th fractional digit on are different trees with
+different wire values: 0.9999999 (0x3FEFFFFFCA501ACB) vs 1 (0x3FF0000000000000) -/
+example : marshal (.number ⟨0x3FEFFFFFCA501ACB⟩) ≠ marshal (.number ⟨0x3FF0000000000000⟩) := by
+  simp [marshal, F64.isFinite]
+
+/-! ## The parser glue, branch for branch -/
+
+theorem tie_durationUnits : Generated.C17.durationUnits = durationUnitTable.map Prod.fst ∧
+    Generated.C17.durationUnitConsts = ["commontimeutil.OneSecond", "commontimeutil.OneMinute",
+      "commontimeutil.OneHour", "commontimeutil.OneDay", "commontimeutil.OneWeek",
+      "commontimeutil.OneMonth", "commontimeutil.OneYear"] := by decide
+theorem tie_durationGuard : Generated.C17.durationGuard = durationGuardTable := by rfl
+theorem tie_limitParse : Generated.C17.limitParse = "strconv.ParseInt(ctx.L_INT().GetText(), 10, 32)" := by decide
+theorem tie_timeRangeOps : Generated.C17.timeRangeOps =
+    [("binaryOpCtx.T_GREATER() != nil || binaryOpCtx.T_GREATEREQUAL() != nil", "q.startTime = timestamp"),
+     ("binaryOpCtx.T_LESS() != nil || binaryOpCtx.T_LESSEQUAL() != nil", "q.endTime = timestamp")] := by decide
+theorem tie_timeOrderGuard : Generated.C17.timeOrderGuard = "query.TimeRange.End < query.TimeRange.Start" := by decide
+theorem tie_groupByKey : Generated.C17.groupByKeyAssigns =
+    [("q.groupBy", "append(q.groupBy, tagKey)"), ("q.interval", "q.parseDuration(ctx.DurationLit())"),
+     ("q.autoGroupByTime", "true")] := by decide
+theorem tie_tagFilterMachine : Generated.C17.tagFilterAttach = tagFilterAttachTable := by rfl
+
+theorem durationUnit_facts {tok : String} {u : Int} (h : (tok, u) ∈ durationUnitTable) :
+    0 < u ∧ u ≤ maxInt64 ∧ (1000 : Int) ∣ u := by
+  simp [durationUnitTable, oneSecond, oneMinute, oneHour, oneDay, oneWeek, oneMonth, oneYear] at h
+  rcases h with ⟨_, rfl⟩ | ⟨_, rfl⟩ | ⟨_, rfl⟩ | ⟨_, rfl⟩ | ⟨_, rfl⟩ | ⟨_, rfl⟩ | ⟨_, rfl⟩ <;>
+    refine ⟨by decide, by decide, by decide⟩
+
+/-- what `parseDuration` accepts: the value is EXACTLY `digits × unit` (no wrap-around got
+through the guard) and fits int64 -/
+theorem parseDuration_exact (cs : List Char) (tok : String) (u v : Int) (hu : (tok, u) ∈ durationUnitTable)
+    (h : parseDuration cs (some u) = .ok v) :
+    ∃ d, parseInt cs = some d ∧ v = d * u ∧ minInt64 ≤ v ∧ v ≤ maxInt64 := by
+  obtain ⟨hpos, hmax, _⟩ := durationUnit_facts hu
+  unfold parseDuration parseInt64 at h
+  cases hp : parseInt cs with
+  | none => simp [hp] at h
+  | some d =>
+    simp only [hp] at h
+    by_cases hr : minInt64 ≤ d ∧ d ≤ maxInt64
+    · simp only [hr, and_self, if_true] at h
+      by_cases hg : u ≠ 0 ∧ (wrap64 (d * u)).tdiv u ≠ d
+      · simp [hg] at h
+      · simp only [hg, if_false] at h
+        injection h with h
+        have hq : (wrap64 (d * u)).tdiv u = d := by
+          have hne : u ≠ 0 := by omega
+          by_cases hq : (wrap64 (d * u)).tdiv u = d
+          · exact hq
+          · exact absurd ⟨hne, hq⟩ hg
+        have hw := wrap_guard d u hpos hmax hq
+        have hrange := wrap64_range (d * u)
+        exact ⟨d, rfl, by rw [← h, hw], by rw [← h]; exact hrange.1, by rw [← h]; exact hrange.2⟩
+    · simp [hr] at h
+
+/-- an accepted group-by interval is a whole number of seconds: the `Interval` guard of the wire
+theorems holds for whatever the parser lets through -/
+theorem parseDuration_whole_seconds (cs : List Char) (tok : String) (u v : Int)
+    (hu : (tok, u) ∈ durationUnitTable) (h : parseDuration cs (some u) = .ok v) : (1000 : Int) ∣ v := by
+  obtain ⟨d, _, hv, _, _⟩ := parseDuration_exact cs tok u v hu h
+  rw [hv]
+  exact Int.dvd_trans (durationUnit_facts hu).2.2 (Int.dvd_mul_left d u)
+
+/-- the guard rejects every product outside int64 (the repaired finding
+`interval-overflow-not-whole-seconds`) ... -/
+theorem parseDuration_rejects_overflow (cs : List Char) (tok : String) (u d : Int)
+    (hu : (tok, u) ∈ durationUnitTable) (hp : parseInt cs = some d)
+    (ho : d * u < minInt64 ∨ maxInt64 < d * u) : parseDuration cs (some u) = .error .range := by
+  cases h : parseDuration cs (some u) with
+  | error e =>
+    unfold parseDuration parseInt64 at h
+    simp only [hp] at h
+    by_cases hr : minInt64 ≤ d ∧ d ≤ maxInt64
+    · simp only [hr, and_self, if_true] at h
+      by_cases hg : u ≠ 0 ∧ (wrap64 (d * u)).tdiv u ≠ d
+      · rw [if_pos hg] at h; injection h with h; rw [h]
+      · rw [if_neg hg] at h; cases h
+    · rw [if_neg hr] at h; injection h with h; rw [h]
+  | ok v =>
+    obtain ⟨d', hd', hv, h1, h2⟩ := parseDuration_exact cs tok u v hu h
+    rw [hp] at hd'; injection hd' with hd'; subst hd'
+    omega
+
+/-- ... and nothing else -/
+theorem parseDuration_accepts_in_range (cs : List Char) (tok : String) (u d : Int)
+    (hu : (tok, u) ∈ durationUnitTable) (hp : parseInt cs = some d)
+    (hd : minInt64 ≤ d ∧ d ≤ maxInt64) (hr : minInt64 ≤ d * u ∧ d * u ≤ maxInt64) :
+    parseDuration cs (some u) = .ok (d * u) := by
+  obtain ⟨hpos, _, _⟩ := durationUnit_facts hu
+  have hw := wrap64_of_range (d * u) hr
+  have hq : (d * u).tdiv u = d := Int.mul_tdiv_cancel d (by omega)
+  simp [parseDuration, parseInt64, hp, hd, hw, hq]
+
+/-- an accepted limit fits int32 (so the unbounded `Int` of the model is faithful for it) -/
+theorem visitLimit_range (cs : List Char) (n : Int) (h : visitLimit cs = .ok n) :
+    0 ≤ n ∧ n ≤ maxInt32 := by
+  unfold visitLimit at h
+  cases hp : parseDigits cs with
+  | none => simp [hp] at h
+  | some m =>
+    simp only [hp] at h
+    by_cases hr : (m : Int) ≤ maxInt32
+    · simp only [hr, if_true] at h; injection h with h; omega
+    · simp [hr] at h
+
+/-- grouping keys are stored in text order -/
+theorem visitGroupBy_order (g : GroupState) (ks : List String) :
+    (ks.map GroupKey.tag).foldl visitGroupByKey g = { g with groupBy := g.groupBy ++ ks } := by
+  induction ks generalizing g with
+  | nil => simp
+  | cons k ks ih => simp [List.foldl_cons, visitGroupByKey, ih, List.append_assoc]
+
+/-- a statement `build()` lets through has an ordered time range -/
+theorem buildTimeRangeChecked_ordered (s e now : Int) (tr : TimeRange)
+    (h : buildTimeRangeChecked s e now = .ok tr) : tr.start ≤ tr.stop ∧ tr = buildTimeRange s e now := by
+  unfold buildTimeRangeChecked at h
+  by_cases hlt : (buildTimeRange s e now).stop < (buildTimeRange s e now).start
+  · simp [hlt] at h
+  · simp only [hlt, if_false] at h
+    injection h with h
+    subst h
+    exact ⟨by omega, rfl⟩
+
+/-- `time > a and time < b`: start and end are the two literals, in either order of the text -/
+theorem visitTimeRange_two_sided (a b : Int) (st : Int × Int) :
+    visitTimeRange st [(.gt, a), (.lt, b)] = (a, b) ∧ visitTimeRange st [(.lt, b), (.ge, a)] = (a, b) ∧
+    visitTimeRange st [(.other, a)] = st := by
+  simp [visitTimeRange]
+
+/-- THE where-condition: for every derivation of `tagFilterExpr` the listener's stack machine ends
+with an empty stack and `condition` = the derivation's tree -/
+theorem condition_built_from_derivation (c : Cond) (cond₀ : Expr) :
+    tagRun ⟨[], cond₀⟩ c.walk = ⟨[], c.denote⟩ := by
+  rw [tagRun_walk]; rfl
+
+/-- that tree has every operand (closing the gap `validation()` leaves: it does not look at the
+condition) -/
+theorem condition_wellFormed_of_derivation (c : Cond) (cond₀ : Expr) :
+    (tagRun ⟨[], cond₀⟩ c.walk).condition.wellFormed = true := by
+  rw [condition_built_from_derivation]; exact denote_wellFormed c
+
+/-- atoms are tag filters in the sense of `marshal_injective_tagFilter` -/
+theorem atom_isTagFilter (k : AtomKind) (key : String) (vs : List String) :
+    (atomExpr k key vs).isTagFilter = true :=
+  filterShape_isTagFilter _ (atomExpr_shape k key vs)
+
+/-- accepted ⇒ well formed ⇒ survives the wire, with the condition and the group-by interval
+discharged from the glue models instead of assumed: `c` is the derivation of the where-clause
+filter (if any), `cs`/`u` the text of `time(<duration>)` (if any) -/
+theorem accepted_statement_survives_wire (q : Query) (c : Option Cond) (cond₀ : Expr)
+    (hcond : q.condition = match c with
+      | none => .nil
+      | some c => (tagRun ⟨[], cond₀⟩ c.walk).condition)
+    (hint : q.interval = 0 ∨ ∃ cs tok u, (tok, u) ∈ durationUnitTable ∧
+      parseDuration cs (some u) = .ok q.interval)
+    (hst : q.storageInterval = 0)
+    (hv : q.validated = true) (hs : numbersFiniteList q.selectItems = true)
+    (ho : numbersFiniteList q.orderByItems = true) (hh : q.having.numbersFinite = true) :
+    leafStatement (payloadOf q) = .ok q := by
+  have hc : optWellFormed q.condition = true := by
+    rw [hcond]
+    cases c with
+    | none => rfl
+    | some c =>
+      have := condition_wellFormed_of_derivation c cond₀
+      simp only []
+      cases hd : (tagRun ⟨[], cond₀⟩ c.walk).condition <;> simp_all [optWellFormed]
+  have hi : (1000 : Int) ∣ q.interval := by
+    rcases hint with h0 | ⟨cs, tok, u, hu, hp⟩
+    · rw [h0]; exact Int.dvd_zero _
+    · exact parseDuration_whole_seconds cs tok u _ hu hp
+  exact validated_leaf_executes q hv hs ho hh hc hi (by rw [hst]; exact Int.dvd_zero _)
+
+/-! ## Planner-side rewriting before the statement is sent -/
+
+theorem tie_plannerAssigns : Generated.C17.plannerAssigns = plannerAssignTable := by decide
+
+/-- the planner step touches the four planning fields only -/
+theorem planRewrite_keeps_unplanned_fields (q : Query) (tr : TimeRange) (i s r : Int) :
+    let p := planRewrite q tr i s r
+    p.explain = q.explain ∧ p.ns = q.ns ∧ p.metricName = q.metricName ∧ p.selectItems = q.selectItems ∧
+    p.allFields = q.allFields ∧ p.condition = q.condition ∧ p.autoGroupByTime = q.autoGroupByTime ∧
+    p.groupBy = q.groupBy ∧ p.having = q.having ∧ p.orderByItems = q.orderByItems ∧ p.limit = q.limit := by
+  simp [planRewrite]
+
+/-- a planned statement reaches the leaf unchanged: `Interval = StorageInterval × ratio`, and the
+configured storage intervals are whole seconds (option.Interval is parsed by `Interval.ValueOf`,
+`interval_values_whole_seconds`) — no interval guard left to assume -/
+theorem planned_statement_survives_wire (q : Query) (tr : TimeRange) (storage ratio : Int)
+    (hf : q.wellFormed = true) (hs : (1000 : Int) ∣ storage) :
+    leafStatement (payloadOf (planRewrite q tr (plannedInterval storage ratio) storage ratio))
+      = .ok (planRewrite q tr (plannedInterval storage ratio) storage ratio) := by
+  apply leaf_executes_planned
+  · simpa [planRewrite, Query.wellFormed] using hf
+  · exact Int.dvd_trans hs (Int.dvd_mul_right storage ratio)
+  · exact hs
+
+/-- every value `Interval.ValueOf` returns is a whole number of seconds (so is every configured
+storage interval) -/
+theorem interval_values_whole_seconds (s : String) (v : Int) (h : intervalValueOf s = .ok v) :
+    (1000 : Int) ∣ v := by
+  unfold intervalValueOf intervalValueOfChars at h
+  simp only at h
+  split at h
+  · cases h
+  · split at h
+    · cases h
+    · rename_i suf _
+      split at h
+      · cases h
+      · rename_i unit hunit
+        split at h
+        · cases h
+        · rename_i n _
+          injection h with h
+          rw [← h]
+          have hu : (1000 : Int) ∣ unit := by
+            have : ∀ (l : List (Char × Int)), (∀ p ∈ l, (1000 : Int) ∣ p.2) →
+                unitOf suf l = some unit → (1000 : Int) ∣ unit := by
+              intro l hl
+              induction l with
+              | nil => intro h; simp [unitOf] at h
+              | cons p rest ih =>
+                obtain ⟨c', u'⟩ := p
+                intro h
+                simp only [unitOf] at h
+                split at h
+                · injection h with h; subst h; exact hl (c', u') (by simp)
+                · exact ih (fun p hp => hl p (by simp [hp])) h
+            exact this suffixUnits (by decide) hunit
+          exact Int.dvd_trans hu (Int.dvd_mul_left n unit)
+
+
+/-! ## One named theorem per struct field / node type of sql/stmt
+
+`Generated.C17.fieldObligations` is regenerated from the source: every field of every type of
+sql/stmt with an `UnmarshalJSON` method (the statement kinds sent between nodes) and every type
+with a `Rewrite()` method (the expression node kinds). `Props/C17Fields.lean` fails with
+"<Type>.<Field> has no round-trip theorem" unless a theorem of the expected name exists below;
+`tie_exprNodeFields` pins the fields of the node types to the constructors of the model. -/
+
+theorem tie_wireStatements : Generated.C17.wireStatements = ["MetricMetadata", "Query"] := by decide
+theorem tie_exprNodeFields : Generated.C17.exprNodeFields = exprNodeFieldTable := by decide
+
+/-- what the leaf holds is the wire image of what the root sent -/
+theorem leaf_ok_image (q q' : Query) (h : leafStatement (payloadOf q) = .ok q') : q' = q.wireImage := by
+  rw [leaf_executes_planned_exact] at h
+  by_cases hf : q.wellFormed = true
+  · simp only [hf, if_true] at h; injection h with h; exact h.symm
+  · simp [hf] at h
+
+theorem meta_ok_image (m m' : Metadata) (hk : m.kind < 256) (h : leafMetadata (metaPayloadOf m) = .ok m') :
+    m' = m := by
+  have := metadata_roundtrip_exact m hk
+  unfold leafMetadata metaPayloadOf at h
+  rw [this] at h
+  by_cases hf : optWellFormed m.condition = true
+  · simp only [hf, if_true] at h; injection h with h; exact h.symm
+  · simp [hf] at h
+
+
+theorem field_Query_Explain_roundtrip (q q' : Query) (h : leafStatement (payloadOf q) = .ok q') :
+    q'.explain = q.explain := by rw [leaf_ok_image q q' h]; rfl
+
+theorem field_Query_Namespace_roundtrip (q q' : Query) (h : leafStatement (payloadOf q) = .ok q') :
+    q'.ns = q.ns := by rw [leaf_ok_image q q' h]; rfl
+
+theorem field_Query_MetricName_roundtrip (q q' : Query) (h : leafStatement (payloadOf q) = .ok q') :
+    q'.metricName = q.metricName := by rw [leaf_ok_image q q' h]; rfl
+
+theorem field_Query_SelectItems_roundtrip (q q' : Query) (h : leafStatement (payloadOf q) = .ok q') :
+    q'.selectItems = q.selectItems := by rw [leaf_ok_image q q' h]; rfl
+
+theorem field_Query_AllFields_roundtrip (q q' : Query) (h : leafStatement (payloadOf q) = .ok q') :
+    q'.allFields = q.allFields := by rw [leaf_ok_image q q' h]; rfl
+
+theorem field_Query_Condition_roundtrip (q q' : Query) (h : leafStatement (payloadOf q) = .ok q') :
+    q'.condition = q.condition := by rw [leaf_ok_image q q' h]; rfl
+
+theorem field_Query_TimeRange_roundtrip (q q' : Query) (h : leafStatement (payloadOf q) = .ok q') :
+    q'.timeRange = q.timeRange := by rw [leaf_ok_image q q' h]; rfl
+
+theorem field_Query_IntervalRatio_roundtrip (q q' : Query) (h : leafStatement (payloadOf q) = .ok q') :
+    q'.intervalRatio = q.intervalRatio := by rw [leaf_ok_image q q' h]; rfl
+
+theorem field_Query_AutoGroupByTime_roundtrip (q q' : Query) (h : leafStatement (payloadOf q) = .ok q') :
+    q'.autoGroupByTime = q.autoGroupByTime := by rw [leaf_ok_image q q' h]; rfl
+
+theorem field_Query_GroupBy_roundtrip (q q' : Query) (h : leafStatement (payloadOf q) = .ok q') :
+    q'.groupBy = q.groupBy := by rw [leaf_ok_image q q' h]; rfl
+
+theorem field_Query_Having_roundtrip (q q' : Query) (h : leafStatement (payloadOf q) = .ok q') :
+    q'.having = q.having := by rw [leaf_ok_image q q' h]; rfl
+
+theorem field_Query_OrderByItems_roundtrip (q q' : Query) (h : leafStatement (payloadOf q) = .ok q') :
+    q'.orderByItems = q.orderByItems := by rw [leaf_ok_image q q' h]; rfl
+
+theorem field_Query_Limit_roundtrip (q q' : Query) (h : leafStatement (payloadOf q) = .ok q') :
+    q'.limit = q.limit := by rw [leaf_ok_image q q' h]; rfl
+
+/-- cut to whole seconds by `Interval.String`; unchanged exactly for whole seconds -/
+theorem field_Query_Interval_roundtrip (q q' : Query) (h : leafStatement (payloadOf q) = .ok q') :
+    q'.interval = q.interval - q.interval.tmod 1000 ∧ ((1000 : Int) ∣ q.interval → q'.interval = q.interval) := by
+  rw [leaf_ok_image q q' h]
+  refine ⟨rfl, fun hd => ?_⟩
+  show q.interval - q.interval.tmod 1000 = q.interval
+  rw [Int.tmod_eq_zero_of_dvd hd]; simp
+
+/-- cut to whole seconds by `Interval.String`; unchanged exactly for whole seconds -/
+theorem field_Query_StorageInterval_roundtrip (q q' : Query) (h : leafStatement (payloadOf q) = .ok q') :
+    q'.storageInterval = q.storageInterval - q.storageInterval.tmod 1000 ∧ ((1000 : Int) ∣ q.storageInterval → q'.storageInterval = q.storageInterval) := by
+  rw [leaf_ok_image q q' h]
+  refine ⟨rfl, fun hd => ?_⟩
+  show q.storageInterval - q.storageInterval.tmod 1000 = q.storageInterval
+  rw [Int.tmod_eq_zero_of_dvd hd]; simp
+
+theorem field_MetricMetadata_Namespace_roundtrip (m m' : Metadata) (hk : m.kind < 256)
+    (h : leafMetadata (metaPayloadOf m) = .ok m') : m'.ns = m.ns := by rw [meta_ok_image m m' hk h]
+
+theorem field_MetricMetadata_MetricName_roundtrip (m m' : Metadata) (hk : m.kind < 256)
+    (h : leafMetadata (metaPayloadOf m) = .ok m') : m'.metricName = m.metricName := by rw [meta_ok_image m m' hk h]
+
+theorem field_MetricMetadata_Type_roundtrip (m m' : Metadata) (hk : m.kind < 256)
+    (h : leafMetadata (metaPayloadOf m) = .ok m') : m'.kind = m.kind := by rw [meta_ok_image m m' hk h]
+
+theorem field_MetricMetadata_TagKey_roundtrip (m m' : Metadata) (hk : m.kind < 256)
+    (h : leafMetadata (metaPayloadOf m) = .ok m') : m'.tagKey = m.tagKey := by rw [meta_ok_image m m' hk h]
+
+theorem field_MetricMetadata_Prefix_roundtrip (m m' : Metadata) (hk : m.kind < 256)
+    (h : leafMetadata (metaPayloadOf m) = .ok m') : m'.prefix_ = m.prefix_ := by rw [meta_ok_image m m' hk h]
+
+theorem field_MetricMetadata_Condition_roundtrip (m m' : Metadata) (hk : m.kind < 256)
+    (h : leafMetadata (metaPayloadOf m) = .ok m') : m'.condition = m.condition := by rw [meta_ok_image m m' hk h]
+
+theorem field_MetricMetadata_Limit_roundtrip (m m' : Metadata) (hk : m.kind < 256)
+    (h : leafMetadata (metaPayloadOf m) = .ok m') : m'.limit = m.limit := by rw [meta_ok_image m m' hk h]
+
+theorem kind_BinaryExpr_roundtrip (l r : Expr) (op : Int) (h : (Expr.binary l r op).wellFormed = true) :
+    unmarshal (marshalRaw (.binary l r op)) = .ok (.binary l r op) := expr_roundtrip_partial _ h
+
+theorem kind_CallExpr_roundtrip (ft : Int) (ps : List Expr) (h : (Expr.call ft ps).wellFormed = true) :
+    unmarshal (marshalRaw (.call ft ps)) = .ok (.call ft ps) := expr_roundtrip_partial _ h
+
+theorem kind_EqualsExpr_roundtrip (k v : String) :
+    unmarshal (marshalRaw (.equals k v)) = .ok (.equals k v) := expr_roundtrip_partial _ rfl
+
+theorem kind_FieldExpr_roundtrip (n : String) :
+    unmarshal (marshalRaw (.field n)) = .ok (.field n) := expr_roundtrip_partial _ rfl
+
+theorem kind_InExpr_roundtrip (k : String) (vs : List String) :
+    unmarshal (marshalRaw (.inE k vs)) = .ok (.inE k vs) := expr_roundtrip_partial _ rfl
+
+theorem kind_LikeExpr_roundtrip (k v : String) :
+    unmarshal (marshalRaw (.like k v)) = .ok (.like k v) := expr_roundtrip_partial _ rfl
+
+theorem kind_NotExpr_roundtrip (e : Expr) (h : (Expr.not e).wellFormed = true) :
+    unmarshal (marshalRaw (.not e)) = .ok (.not e) := expr_roundtrip_partial _ h
+
+theorem kind_NumberLiteral_roundtrip (f : F64) (h : (Expr.number f).wellFormed = true) :
+    unmarshal (marshalRaw (.number f)) = .ok (.number f) := expr_roundtrip_partial _ h
+
+theorem kind_OrderByExpr_roundtrip (e : Expr) (d : Bool) (h : (Expr.orderBy e d).wellFormed = true) :
+    unmarshal (marshalRaw (.orderBy e d)) = .ok (.orderBy e d) := expr_roundtrip_partial _ h
+
+theorem kind_ParenExpr_roundtrip (e : Expr) (h : (Expr.paren e).wellFormed = true) :
+    unmarshal (marshalRaw (.paren e)) = .ok (.paren e) := expr_roundtrip_partial _ h
+
+theorem kind_RegexExpr_roundtrip (k r : String) :
+    unmarshal (marshalRaw (.regex k r)) = .ok (.regex k r) := expr_roundtrip_partial _ rfl
+
+theorem kind_SelectItem_roundtrip (e : Expr) (a : String) (h : (Expr.selectItem e a).wellFormed = true) :
+    unmarshal (marshalRaw (.selectItem e a)) = .ok (.selectItem e a) := expr_roundtrip_partial _ h
+
 /-! ## Non-vacuity -/
 
 example : fullQuery.wellFormed = true ∧ (1000 : Int) ∣ fullQuery.interval ∧
@@ -767,6 +1235,55 @@ theorem completeNoParams_not_sufficient :
   intro h
   have := h (.call 1 [.binary (.field "f") .nil 3]) (by decide) (by decide)
   simp [Expr.wellFormed, wellFormedList] at this
+
+
+/-- a worker that takes its `innerQuery` from a pool without clearing it (NOT the code: seeded
+change c17-20) decodes a statement that depends on the request before: the second payload carries
+only a metric name, the statement it yields still has the first request's limit and grouping keys -/
+theorem pooled_scratch_leaks :
+    (Worker.run .pooled ⟨[]⟩ [.obj [("limit", .int 7), ("groupBy", .arr [.str "host"])],
+        .obj [("metricName", .str "cpu")]]).getLast?
+      = some (.ok { zeroQ with metricName := "cpu", limit := 7, groupBy := ["host"] }) ∧
+    unmarshalQuery (.obj [("metricName", .str "cpu")]) = .ok { zeroQ with metricName := "cpu" } := by
+  constructor <;>
+  simp [Worker.run, Worker.decode, unmarshalQueryInto, unmarshalOptInto, unmarshalQuery, structFields,
+    getBool, getStr, getInt, getRawList, getStruct, getInterval, getStrList, getRaw, arrElems, lookup,
+    strElems, Except.map, bind, Except.bind, pure, Except.pure, unmarshalOpt, unmarshalAll, zeroQ]
+
+/-- so with that policy decode is NOT a function of the payload -/
+theorem pooled_decode_not_function_of_payload :
+    ¬ ∀ (w : Worker) (history : List Json) (p : Json),
+      (Worker.run .pooled w (history ++ [p])).getLast? = some (unmarshalQuery p) := by
+  intro h
+  have h1 := h ⟨[]⟩ [.obj [("limit", .int 7), ("groupBy", .arr [.str "host"])]] (.obj [("metricName", .str "cpu")])
+  rw [show ([Json.obj [("limit", .int 7), ("groupBy", .arr [.str "host"])]] ++ [Json.obj [("metricName", .str "cpu")]])
+    = [.obj [("limit", .int 7), ("groupBy", .arr [.str "host"])], .obj [("metricName", .str "cpu")]] from rfl,
+    pooled_scratch_leaks.1, pooled_scratch_leaks.2] at h1
+  injection h1 with h1
+  injection h1 with h1
+  have := congrArg Query.limit h1
+  simp [zeroQ] at this
+
+/-- `UnmarshalJSON` into a statement value that was used before keeps its `Condition` when the
+payload has none (the code assigns it under `if inner.Condition != nil` only): receivers must be
+fresh, and they are (`tie_decodeTargets`) -/
+theorem reused_receiver_keeps_condition :
+    unmarshalQueryInto { zeroQ with condition := .equals "host" "a" } (.obj [])
+      = .ok { zeroQ with condition := .equals "host" "a" } ∧
+    unmarshalQuery (.obj []) = .ok zeroQ := by
+  constructor <;>
+  simp [unmarshalQueryInto, unmarshalOptInto, unmarshalQuery, structFields,
+    getBool, getStr, getInt, getRawList, getStruct, getInterval, getStrList, getRaw, arrElems, lookup,
+    bind, Except.bind, pure, Except.pure, unmarshalOpt, unmarshalAll, zeroQ]
+
+/-- a duration whose product leaves int64 wraps to a value that is not a whole number of seconds —
+what the guard of `parseDuration` keeps out (`100000000000000y`) -/
+theorem duration_wrap_not_whole_seconds :
+    wrap64 (100000000000000 * oneYear) = -26609163815616512 ∧
+    ¬ (1000 : Int) ∣ wrap64 (100000000000000 * oneYear) ∧
+    parseDuration "100000000000000".toList (some oneYear) = .error .range := by
+  refine ⟨by decide, by decide, ?_⟩
+  exact parseDuration_rejects_overflow _ "T_YEAR" oneYear 100000000000000 (by decide) (by decide) (by decide)
 
 end Neg
 end LinVerif.Props.C17
